@@ -207,12 +207,13 @@ class IkeSa(object):
         """
         for tsi in reversed(payload_tsi.traffic_selectors):
             for tsr in reversed(payload_tsr.traffic_selectors):
+                # look for a larger policy (in any entry, before narrowing to a smaller one)
                 for ipsec_conf in self.configuration.protect:
-                    # look for a larger policy
                     if tsi.is_subset(ipsec_conf.peer_ts) and tsr.is_subset(ipsec_conf.my_ts):
                         return ipsec_conf, tsr, tsi
-                    # look for a smaller policy
-                    elif ipsec_conf.peer_ts.is_subset(tsi) and ipsec_conf.my_ts.is_subset(tsr):
+                # look for a smaller policy
+                for ipsec_conf in self.configuration.protect:
+                    if ipsec_conf.peer_ts.is_subset(tsi) and ipsec_conf.my_ts.is_subset(tsr):
                         return ipsec_conf, ipsec_conf.my_ts, ipsec_conf.peer_ts
         raise TsUnacceptable('TS could not be matched with any IPsec configuration')
 
